@@ -17,6 +17,8 @@ var registry = map[string]func() core.Engine{
 	"C13": func() core.Engine { return &C13{} },
 	"C14": func() core.Engine { return &C14{} },
 	"C15": func() core.Engine { return &C15{} },
+	"C16": func() core.Engine { return &C16{} },
+	"C17": func() core.Engine { return &C17{} },
 }
 
 // Lookup returns a fresh engine for the property id, or nil.
